@@ -104,12 +104,28 @@ def private_symbols(modules: dict) -> dict:
     return out
 
 
+def all_signatures(modules: dict) -> dict:
+    """qualified name of every module-level function and method -> parameter names."""
+    out = {}
+    for m in modules.values():
+        for node in m.tree.body:
+            if isinstance(node, (ast.FunctionDef, ast.AsyncFunctionDef)):
+                out[f"{m.name}.{node.name}"] = _params(node)
+            elif isinstance(node, ast.ClassDef):
+                for st in node.body:
+                    if isinstance(st, (ast.FunctionDef, ast.AsyncFunctionDef)):
+                        out[f"{m.name}.{node.name}.{st.name}"] = _params(st)
+    return out
+
+
 class Program:
     def __init__(self, repo: str = REPO):
         self.repo = repo
         self.modules: dict[str, Module] = {}
         self.classes: dict[str, ClassInfo] = {}
         self._mro_cache: dict[str, list[ClassInfo]] = {}
+        self.recorded_signatures: dict = {}
+        self._passed_cache: dict = {}
         self._load()
 
     # ------------------------------------------------------------------ loading
@@ -157,6 +173,7 @@ class Program:
             return {}
         import json
         want = json.load(open(path))
+        self.recorded_signatures = want.pop("signatures", {})
         have = private_symbols(self.modules)
         ren: dict[str, str] = {}
         for scope, old_syms in want.items():
@@ -387,6 +404,38 @@ class Program:
                 seen.add(name)
                 if name in k.abstract:
                     out.append(name)
+        return out
+
+    def new_passed_params(self, qual: str, fn) -> list:
+        """Parameters of `qual` that the recorded signature (anchors.json) does not have and that some call site in
+        the repository passes.  A rule that evaluates the function with the arguments it knows would otherwise read
+        such a parameter at its default - a mode the real callers do not use."""
+        rec = self.recorded_signatures.get(qual)
+        if rec is None:
+            return []
+        a = fn.args
+        pos = [p.arg for p in a.posonlyargs + a.args]
+        new = [p for p in pos + [p.arg for p in a.kwonlyargs] if p not in rec]
+        if not new:
+            return []
+        k = (qual, tuple(new))
+        if k in self._passed_cache:
+            return self._passed_cache[k]
+        name = fn.name
+        out = []
+        for mod in self.modules.values():
+            for node in ast.walk(mod.tree):
+                if isinstance(node, ast.Call) and ((isinstance(node.func, ast.Name) and node.func.id == name) or (
+                        isinstance(node.func, ast.Attribute) and node.func.attr == name)):
+                    for kw in node.keywords:
+                        if kw.arg in new and kw.arg not in out:
+                            out.append(kw.arg)
+                        elif kw.arg is None:
+                            out.extend(p for p in new if p not in out)
+                    for i in range(len(node.args)):
+                        if i < len(pos) and pos[i] in new and pos[i] not in out:
+                            out.append(pos[i])
+        self._passed_cache[k] = out
         return out
 
     # ------------------------------------------------------------------ helpers
